@@ -373,10 +373,15 @@ def run(ctx: Ctx, rs: RuleSet, tier: str):
     ok = False
     if m is not None:
       g = ctx.cfg(m)
+      def _nested(t):
+        return (isinstance(t, ast.Compare) and len(t.ops) == 1 and isinstance(
+            t.ops[0], ast.Gt) and unparse(t.left).endswith(
+                '._function_def_depth') and unparse(t.comparators[0]) == '0')
       for n in g.nodes():
-        if g.kind[n] == 'if' and '_function_def_depth > 0' in unparse(
-            g.stmt[n].test):
-          r = g.reach([x for x, lab in g.succ[n] if lab == 'true'],
+        lab_n = roles.branch_when(g.stmt[n].test, _nested) if (
+            g.kind[n] == 'if') else None
+        if lab_n is not None:
+          r = g.reach([x for x, lab in g.succ[n] if lab == lab_n],
                       labels=cfg_lib.NO_EXC)
           ok = g.exit not in r and g.raise_exit in r
     rs.check(ok, rule, f'{TR}.visit_{cname}',
